@@ -28,6 +28,7 @@ import (
 
 	"github.com/obolnetwork/charon/app/k1util"
 	"github.com/obolnetwork/charon/core"
+	qbftcons "github.com/obolnetwork/charon/core/consensus/qbft"
 	pbv1 "github.com/obolnetwork/charon/core/corepb/v1"
 	"github.com/obolnetwork/charon/verifrt"
 
@@ -676,6 +677,46 @@ func alterationsJ(cl *cluster.Cluster, m, other *pbv1.QBFTConsensusMsg, n int, j
 		cp := cloneMsg(m)
 		cp.Justification = append(cp.Justification, alt1)
 		out = append(out, alt{class: "just-copy/of-top-message/round+1", msg: cp})
+	}
+	// a message re-signed by a cluster member other than the one it names as its source (the signer is a
+	// genuine member, the signature is a genuine signature over exactly this content - only the binding of
+	// signature and claimed peer index is wrong): for the top message and the first justifications
+	resign := func(q *pbv1.QBFTMsg, claim, signer int64) *pbv1.QBFTMsg {
+		c := proto.Clone(q).(*pbv1.QBFTMsg)
+		c.PeerIdx = claim
+		c.Signature = nil
+		sg, err := qbftcons.VerifSignMsg(c, cl.Keys[signer])
+		if err != nil {
+			panic(err)
+		}
+		return sg
+	}
+	{
+		orig := m.Msg.GetPeerIdx()
+		cp := cloneMsg(m)
+		cp.Msg = resign(m.Msg, (orig+1)%int64(n), orig) // claims the next member, signed by the real sender
+		out = append(out, alt{class: "top/resigned/claims-another-member", msg: cp})
+		cp2 := cloneMsg(m)
+		cp2.Msg = resign(m.Msg, orig, (orig+1)%int64(n)) // claims the real sender, signed by the next member
+		out = append(out, alt{class: "top/resigned/signed-by-another-member", msg: cp2})
+	}
+	for j := range m.GetJustification() {
+		if j >= 2 {
+			break
+		}
+		orig := m.Justification[j].GetPeerIdx()
+		cp := cloneMsg(m)
+		cp.Justification[j] = resign(m.Justification[j], orig, (orig+1)%int64(n))
+		out = append(out, alt{class: "just/resigned/signed-by-another-member", msg: cp})
+		// a further vote fabricated for a member that did not send one, signed by the top message's sender
+		claim := (orig + 1) % int64(n)
+		for claim == m.Msg.GetPeerIdx() || claim == orig {
+			claim = (claim + 1) % int64(n)
+		}
+		extra := resign(m.Justification[j], claim, m.Msg.GetPeerIdx())
+		cp2 := cloneMsg(m)
+		cp2.Justification = append(cp2.Justification, extra)
+		out = append(out, alt{class: "just/resigned/fabricated-vote-of-another-member", msg: cp2})
 	}
 	// signature taken from another message of the same signer
 	if len(m.GetJustification()) > 0 {
